@@ -15,15 +15,20 @@
     (`C18_totp_reccode_saved`, `C18_sms_reccode_saved`);
   * a failed user save never puts a record in storage (`C18_save_monotone`).
 
+  * `C18_no_panic`: no request on any route other than the three that *are*
+    `lock.Middleware` / `confirm.Middleware` (known finding K3) ends in a panic, whatever call
+    fails and however (`Proofs/NoPanic.lean`: every handler, event handler, middleware).
+
   What is *not* proved here and is decided by the fault enumeration of the correspondence
-  check instead (see DESIGN.md): absence of panics over the whole dispatch table (the model
-  has exactly five `panic` sites; the enumeration drives each of them), and "no success
-  response for an unsaved change" per route.
+  check instead (see DESIGN.md): "no success response for an unsaved change" per route, and
+  "nothing spent comes back".
 -/
 import Proofs.Dispatch
 import Proofs.Veto
 import Proofs.SafeTop
 import Proofs.ReadOnly
+import Proofs.NoPanic
+import Proofs.StepUid
 import Properties.C12
 
 namespace AuthbossModel.M
@@ -194,6 +199,31 @@ theorem C18_sms_reccode_saved (pg : SmsPage) (u : User) (c0 : Ctx)
        simp at hu
        subst hu
        exact ⟨_, _, _, hu', rfl, hs⟩)
+
+/-! ### No panic -/
+
+/-- **C18_no_panic.** For every configuration, state, request and fault oracle: a request on
+any route other than `lock.Middleware` / `confirm.Middleware` themselves never ends in a panic. -/
+theorem C18_no_panic (cfg : Config) (s : State) (b : Bytes) (rt : Route) (req : Req) (fault : Option Fault)
+    (h1 : rt ≠ .lockmw) (h2 : rt ≠ .confirmmw) (h3 : rt ≠ .rootmw) (e : String) :
+    (stepHttp cfg s b rt req fault).2.stop ≠ some (.panic e) := by
+  unfold stepHttp
+  simp only
+  have := NoPanic.serve rt h1 h2 h3 (initCtx cfg s b req fault) e
+  generalize serve rt (initCtx cfg s b req fault) = r at this
+  obtain ⟨res, c⟩ := r
+  cases res with
+  | ok a => simp
+  | stop st => intro h; simp at h; subst h; exact this rfl
+
+def cfgK3 : Config := { units := [.auth, .lock] }
+def sK3 : State := run cfgK3 {} [.seedUser { pid := lit "a@x.c", pw := lit "pw", confirmed := true },
+                                  .setSess (lit "b") [(.uid, lit "a@x.c")]]
+
+/-- K3, in the model as in the code: `lock.Middleware` panics when loading the user fails
+(the excluded routes of `C18_no_panic` are excluded for a reason). -/
+example : (stepHttp cfgK3 sK3 (lit "b") .lockmw {} (some ⟨0, .generic⟩)).2.stop = some (.panic "LoadCurrentUserP") := by
+  decide
 
 /-! ### Non-vacuity -/
 
